@@ -88,17 +88,46 @@ pub struct ArcCase {
     pub start: f32,
     pub sweep: f32,
     pub lead: Option<(f32, f32)>,
+    /// builder calls made before `lead` and the arc (the arc's first op is a LineTo whatever came before:
+    /// after a close(), a rect(), a curve, another subpath)
+    #[serde(default)]
+    pub prefix: Vec<POp>,
 }
 
 pub fn check_arc(c: &ArcCase) -> CheckResult {
     let mut pb = PathBuilder::new();
     let mut k = 0;
+    for op in &c.prefix {
+        match *op {
+            POp::M(x, y) => pb.move_to(x, y),
+            POp::L(x, y) => pb.line_to(x, y),
+            POp::Q(a, b, x, y) => pb.quad_to(a, b, x, y),
+            POp::C(a, b, cc, d, x, y) => pb.cubic_to(a, b, cc, d, x, y),
+            POp::Z => pb.close(),
+        }
+        k += 1;
+    }
     if let Some((x, y)) = c.lead {
         pb.move_to(x, y);
-        k = 1;
+        k += 1;
     }
     pb.arc(c.cx, c.cy, c.r, c.start, c.sweep);
     let p = pb.finish();
+    if p.ops.len() < k {
+        return Err(format!("finish() returned {} ops after {} builder calls and an arc", p.ops.len(), k));
+    }
+    for (i, op) in c.prefix.iter().enumerate() {
+        let same = match (op, &p.ops[i]) {
+            (POp::M(x, y), PathOp::MoveTo(q)) | (POp::L(x, y), PathOp::LineTo(q)) => q.x == *x && q.y == *y,
+            (POp::Q(a, b, x, y), PathOp::QuadTo(ct, q)) => ct.x == *a && ct.y == *b && q.x == *x && q.y == *y,
+            (POp::C(a, b, cc, d, x, y), PathOp::CubicTo(c1, c2, q)) => c1.x == *a && c1.y == *b && c2.x == *cc && c2.y == *d && q.x == *x && q.y == *y,
+            (POp::Z, PathOp::Close) => true,
+            _ => false,
+        };
+        if !same {
+            return Err(format!("finish(): op {} is {:?}, the builder call was {:?}", i, p.ops[i], op));
+        }
+    }
     let ops = &p.ops[k..];
     let mut o = Outcome::new();
     o.fp = fp_of(c);
@@ -173,6 +202,7 @@ pub fn check_arc(c: &ArcCase) -> CheckResult {
     o.class_if(r == 0.0, "zero-radius");
     o.class_if(nquads >= 2, "multi-quad");
     o.class_if(c.lead.is_some(), "with-current-point");
+    o.class_if(c.lead.is_none() && matches!(c.prefix.last(), Some(POp::Z)), "arc-directly-after-close");
     Ok(o)
 }
 
@@ -187,7 +217,18 @@ fn arc_strategy() -> BoxedStrategy<ArcCase> {
         2 => (-24i32..=24).prop_map(move |k| k as f32 * pi / 4.0),
         1 => prop::sample::select(vec![0.0f32, 1e-3, -1e-3, 2.0 * pi, -2.0 * pi, 6.3, -6.3]),
     ];
-    (geom, start, sweep, prop::option::of((-100.0f32..100.0, -100.0f32..100.0))).prop_map(|((cx, cy, r), start, sweep, lead)| ArcCase { cx, cy, r, start, sweep, lead }).boxed()
+    let pc = || -100.0f32..100.0;
+    let pop = prop_oneof![
+        2 => (pc(), pc()).prop_map(|(x, y)| vec![POp::M(x, y)]),
+        3 => (pc(), pc()).prop_map(|(x, y)| vec![POp::L(x, y)]),
+        1 => (pc(), pc(), pc(), pc()).prop_map(|(a, b, x, y)| vec![POp::Q(a, b, x, y)]),
+        1 => (pc(), pc(), pc(), pc(), pc(), pc()).prop_map(|(a, b, c, d, x, y)| vec![POp::C(a, b, c, d, x, y)]),
+        2 => Just(vec![POp::Z]),
+        // what PathBuilder::rect appends
+        1 => (pc(), pc(), pc(), pc()).prop_map(|(x, y, w, h)| vec![POp::M(x, y), POp::L(x + w, y), POp::L(x + w, y + h), POp::L(x, y + h), POp::Z]),
+    ];
+    let prefix = prop_oneof![2 => Just(Vec::new()), 3 => prop::collection::vec(pop, 1..=4).prop_map(|v| v.concat())];
+    (geom, start, sweep, prop::option::of((-100.0f32..100.0, -100.0f32..100.0)), prefix).prop_map(|((cx, cy, r), start, sweep, lead, prefix)| ArcCase { cx, cy, r, start, sweep, lead, prefix }).boxed()
 }
 
 // ---------------------------------------------------------------------------
@@ -273,14 +314,14 @@ fn xf_strategy() -> BoxedStrategy<XfCase> {
 pub fn property(_ctx: &Ctx) -> Property {
     Property {
         id: "C20",
-        rule: "part rect: finite x,y,w,h (random, integers, +-0, tiny, +-3999, +-1e6; negative and zero sizes), optionally after other ops; oracle = the exact five ops with f32 sums. part arc: centre +-100, r in {0, 1e-3, 0.5..200}, start in +-4pi, sweep in +-6pi plus 0/+-2pi/multiples of pi/4/tiny, with or without a current point; oracle = f64 evaluation of the returned ops (leading LineTo to the start point, only QuadTo after, every sampled point at distance r within 0.5%, polar angle monotone in the sweep direction, total angle = clamp(sweep,+-2pi), end point). part transform: random op lists (all op kinds, any order) x all transform classes incl. singular and mirrored; oracle = same op kinds in order, every point = T*p in f64 within 4 ulp, winding kept, finish() preserves call order. Non-trivial: arc with |sweep|>pi/4 or negative sweep; rect with w != h and negative size or non-zero origin; non-identity transform on >=2 ops; distinct by hash of the case.",
+        rule: "part rect: finite x,y,w,h (random, integers, +-0, tiny, +-3999, +-1e6; negative and zero sizes), optionally after other ops; oracle = the exact five ops with f32 sums. part arc: centre +-100, r in {0, 1e-3, 0.5..200}, start in +-4pi, sweep in +-6pi plus 0/+-2pi/multiples of pi/4/tiny, with or without a current point, after 0-4 earlier builder calls (move_to, line_to, curves, close, rect) whose ops must come back unchanged and after which the arc still begins with a LineTo; oracle = f64 evaluation of the returned ops (leading LineTo to the start point, only QuadTo after, every sampled point at distance r within 0.5%, polar angle monotone in the sweep direction, total angle = clamp(sweep,+-2pi), end point). part transform: random op lists (all op kinds, any order) x all transform classes incl. singular and mirrored; oracle = same op kinds in order, every point = T*p in f64 within 4 ulp, winding kept, finish() preserves call order. Non-trivial: arc with |sweep|>pi/4 or negative sweep; rect with w != h and negative size or non-zero origin; non-identity transform on >=2 ops; distinct by hash of the case.",
         assumptions: vec!["f32 noise floor of 4e-6*(|centre|+r+1) added to the 0.5% radius tolerance; angle checks skipped when r is below 1000x that floor"],
         parts: vec![
             part_outside_c07("rect", 50_000, 800_000, rect_strategy, check_rect),
             part_outside_c07("arc", 120_000, 2_500_000, arc_strategy, check_arc),
             part_outside_c07("transform", 50_000, 800_000, xf_strategy, check_xf),
         ],
-        min_class_fraction: vec![("arc", "negative-sweep", 0.3), ("arc", "beyond-full-turn", 0.1), ("arc", "multi-quad", 0.5), ("rect", "negative-size", 0.2), ("transform", "xf:unit-diagonal-shear", 0.01)],
+        min_class_fraction: vec![("arc", "negative-sweep", 0.3), ("arc", "beyond-full-turn", 0.1), ("arc", "multi-quad", 0.5), ("arc", "arc-directly-after-close", 0.05), ("rect", "negative-size", 0.2), ("transform", "xf:unit-diagonal-shear", 0.01)],
         panic_is_violation: false,
     }
 }
